@@ -105,12 +105,12 @@ Definition tag_heqb (s t : tag) : bool :=
 Definition is_typeddict (t : tag) : bool :=
   match t with TTypedDict _ _ _ => true | _ => false end.
 
-(* KnownValue.__eq__ (inherited by KnownValueWithTypeVars: the repaired class is
+(* KnownValue.__eq__ = lit_key_eq (inherited by KnownValueWithTypeVars: the repaired class is
    declared eq=False) *)
 Definition leaf_eqb (a b : leaf) : bool :=
   match a, b with
   | LAny s, LAny s' => N.eqb s s'
-  | (LKnown o | LKnownTV o), (LKnown o' | LKnownTV o') => same_literal o o'
+  | (LKnown o | LKnownTV o), (LKnown o' | LKnownTV o') => lit_key_eq o o'
   | LTyped c l, LTyped c' l' => N.eqb c c' && Bool.eqb l l'
   | LNewType n c, LNewType n' c' => N.eqb n n' && N.eqb c c'
   | LUninit, LUninit => true
